@@ -371,7 +371,7 @@ def replay(case):
         check_program(rec, case["text"], case.get("spans", False))
     else:
         check_text(rec, case["text"], case.get("origin", "replay"), count=False,
-                   expect_valid=case.get("origin", "").startswith("grammar/") and "/" not in case.get("origin", "")[8:],
+                   expect_valid=case.get("origin", "") in ("grammar/lf", "grammar/crlf", "grammar/cr"),
                    spans=False)
-        if case.get("origin", "").startswith("grammar/") and "/prefix" not in case.get("origin", "") and "/edit" not in case.get("origin", ""):
+        if case.get("origin", "") in ("grammar/lf", "grammar/crlf", "grammar/cr"):
             check_text(rec, case["text"], case["origin"], expect_valid=True, spans=True, count=False)
